@@ -220,6 +220,8 @@ def c17d(ctx, tu):
         ok, _why = C16.returns_previous(fn, "tracer_obj")
         ctx.ob("C17.d", A["set_tracer"], ok, pattern=fn.pat, unit=tu.name,
                detail="" if ok else "set_tracer must store the new tracer and return the one that was active before")
+    # the current-tracer object is one per process, not one per thread
+    lib.process_wide_state(ctx, tu, "C17.d.global", [A["tracer_obj"]])
     # who touches the current-tracer object
     for f in tu.fns.values():
         if not f.has_body or not f.is_lib:
